@@ -3,7 +3,7 @@ SPEC = {
     "lean_props": ["TunnoxModel.Props.C05"],
     "harness": {
         "pkg": "c01",
-        "shims": {"stream": "internal/stream"},
+        "shims": {"stream": "internal/stream", "adapter": "internal/protocol/adapter"},
         "runs": [{"args": ["-mode", "raw"], "corpus": "raw", "gomemlimit": "12GiB"}],
     },
     # second harness package: the dispatcher half (HandlePacket on a fresh connection of a full server stack)
